@@ -78,11 +78,11 @@ func (f *Formatter) formatStatement(stmt ast.Statement) *Line {
 		line.Buffer += f.formatIfStatement(t)
 		switch {
 		case t.Alternative != nil:
-			// When "else" statement exists, trailing comment will be on it
-			trailingNode = t.Alternative
+			// When "else" statement exists, trailing comment will be on its block
+			trailingNode = t.Alternative.Consequence
 		case len(t.Another) > 0:
-			// When one of "else if" statement exists, trailing comment will be on it
-			trailingNode = t.Another[len(t.Another)-1]
+			// When one of "else if" statement exists, trailing comment will be on its block
+			trailingNode = t.Another[len(t.Another)-1].Consequence
 		default:
 			// Otherwise, trailing comment will be on consequence
 			trailingNode = t.Consequence
@@ -313,8 +313,7 @@ func (f *Formatter) formatIfStatement(stmt *ast.IfStatement) string {
 		if v := f.formatComment(a.Consequence.Trailing, "", 0); v != "" {
 			// If comment is inline , concat to the same line
 			if i == len(stmt.Another)-1 && stmt.Alternative == nil {
-				// The last block of the statement: comment is trailing of the line like else block
-				buf.WriteString(f.trailing(a.Consequence.Trailing))
+				// The last block of the statement: comment is the trailing comment of the line (see formatStatement)
 			} else if isInlineComment(a.Consequence.Trailing) {
 				buf.WriteString(" " + v)
 			} else {
@@ -342,7 +341,7 @@ func (f *Formatter) formatIfStatement(stmt *ast.IfStatement) string {
 			buf.WriteString(v + " ")
 		}
 		buf.WriteString(f.formatBlockStatement(stmt.Alternative.Consequence))
-		buf.WriteString(f.trailing(stmt.Alternative.Consequence.Trailing))
+		// The trailing comment of the else block is the trailing comment of the line (see formatStatement)
 	}
 
 	return buf.String()
